@@ -4,6 +4,7 @@
 //! counterexample can be replayed natively (src/bin/replay.rs) before it is reported.
 pub mod k2_identifiers;
 pub mod k3_scalars;
+pub mod k4_edwards;
 pub mod k4_elements;
 pub mod k5_framing;
 pub mod k6_params;
@@ -122,6 +123,27 @@ mod proofs {
         crate::k4_elements::k4_secp256k1_tr_tag05(&mut KaniSrc)
     }
     #[kani::proof]
+    #[kani::unwind(34)]
+    #[kani::stub(curve25519_dalek::edwards::CompressedEdwardsY::decompress, crate::k4_edwards::decompress_model)]
+    #[kani::stub(curve25519_dalek::edwards::EdwardsPoint::is_torsion_free, crate::k4_edwards::is_torsion_free_model)]
+    fn k4_ed25519_identity_y1() {
+        crate::k4_edwards::k4_ed25519_identity_y1(&mut KaniSrc)
+    }
+    #[kani::proof]
+    #[kani::unwind(34)]
+    #[kani::stub(curve25519_dalek::edwards::CompressedEdwardsY::decompress, crate::k4_edwards::decompress_model)]
+    #[kani::stub(curve25519_dalek::edwards::EdwardsPoint::is_torsion_free, crate::k4_edwards::is_torsion_free_model)]
+    fn k4_ed25519_identity_nopoint() {
+        crate::k4_edwards::k4_ed25519_identity_nopoint(&mut KaniSrc)
+    }
+    #[kani::proof]
+    #[kani::unwind(34)]
+    #[kani::stub(curve25519_dalek::edwards::CompressedEdwardsY::decompress, crate::k4_edwards::decompress_model)]
+    #[kani::stub(curve25519_dalek::edwards::EdwardsPoint::is_torsion_free, crate::k4_edwards::is_torsion_free_model)]
+    fn k4_ed25519_identity_point() {
+        crate::k4_edwards::k4_ed25519_identity_point(&mut KaniSrc)
+    }
+    #[kani::proof]
     #[kani::unwind(40)]
     fn k4_tr_signature_length() {
         crate::k4_elements::k4_tr_signature_length(&mut KaniSrc)
@@ -217,6 +239,9 @@ pub fn run_native(name: &str, vals: Vec<u8>) -> Result<(), String> {
         "k4_secp256k1_tag05" => crate::k4_elements::k4_secp256k1_tag05(&mut s),
         "k4_secp256k1_tr_tag" => crate::k4_elements::k4_secp256k1_tr_tag(&mut s),
         "k4_secp256k1_tr_tag05" => crate::k4_elements::k4_secp256k1_tr_tag05(&mut s),
+        "k4_ed25519_identity_y1" => crate::k4_edwards::k4_ed25519_identity_y1(&mut s),
+        "k4_ed25519_identity_nopoint" => crate::k4_edwards::k4_ed25519_identity_nopoint(&mut s),
+        "k4_ed25519_identity_point" => crate::k4_edwards::k4_ed25519_identity_point(&mut s),
         "k4_tr_signature_length" => crate::k4_elements::k4_tr_signature_length(&mut s),
         "k5_keypackage_decode" => crate::k5_framing::k5_keypackage_decode(&mut s),
         "k5_keypackage_roundtrip" => crate::k5_framing::k5_keypackage_roundtrip(&mut s),
